@@ -182,7 +182,9 @@ def fit_perform(path, path_results, profile_path=PROFILE_PATH):
     pf = Profile(path=profile_path, create=False)
     dlist = [["path", lambda x: x.path],
              ["enum", lambda x: x.enum],
-             ["E", lambda x: x.fit_properties["params_fitted"]["E"].value],
+             # not every model has a parameter "E" (e.g. two-layer models)
+             ["E", lambda x: x.fit_properties["params_fitted"]["E"].value
+              if "E" in x.fit_properties["params_fitted"] else float("nan")],
              ["rating", lambda x: round(x.rate_quality(
                  training_set=pf["rating training set"],
                  regressor=pf["rating regressor"]),
